@@ -44,7 +44,7 @@ S0 == [gen |-> 0, ph |-> "init", mods |-> [m \in Mods |-> "none"], ifs |-> [i \i
        oldDisc |-> {}, run |-> "no", openR |-> {}, freshR |-> {}, pend |-> FALSE, shutOpen |-> {},
        shutAny |-> FALSE, shutDone |-> FALSE, stopDone |-> FALSE, hooks |-> 0, downs |-> 0,
        crashInj |-> {}, ishReq |-> {}, readyAt |-> 0, mode |-> "", nif |-> 0, nameform |-> "plain",
-       reqGen |-> {}, kinds |-> <<>>, early |-> FALSE, aborted |-> FALSE, modsLeft |-> {}, devs |-> {}, rej |-> ""]
+       reqGen |-> {}, kinds |-> <<>>, early |-> FALSE, raced |-> FALSE, aborted |-> FALSE, modsLeft |-> {}, devs |-> {}, rej |-> ""]
 
 Fail(s, why) == [s EXCEPT !.rej = why]
 (* the first clause (in list order) that does not hold, "" if all hold *)
@@ -253,7 +253,9 @@ H_exc(s, e) ==
 
 Early(s) == s.early \/ s.ph \in {"init", "boot", "ready"}
 H_req_b(s, e) ==
-  LET s1 == [s EXCEPT !.reqGen = @ \cup {<<e.r, s.gen, s.ph>>}, !.early = Early(s)] IN
+  LET s1 == [s EXCEPT !.reqGen = @ \cup {<<e.r, s.gen, s.ph>>}, !.early = Early(s),
+                      \* a restart and a shutdown request at the same time
+                      !.raced = @ \/ (IF e.kind = "restart" THEN s.shutOpen # {} ELSE s.openR # {})] IN
   IF e.kind = "restart"
   THEN \* (a node that is already going down - by itself or on request - may ignore the request or restart)
        {[s1 EXCEPT !.openR = @ \cup {e.r},
@@ -277,7 +279,7 @@ H_req_e(s, e) ==
 (* a signal is a shutdown request; when the handler returns the shutdown has been REQUESTED (the handler may *)
 (* carry it out itself or hand it to another thread): only S2 speaks about it                                  *)
 H_sig_b(s, e) == {[s EXCEPT !.shutOpen = @ \cup {"sig"}, !.shutAny = TRUE, !.reqGen = @ \cup {<<"sig", s.gen, s.ph>>},
-                             !.early = Early(s)]}
+                             !.early = Early(s), !.raced = @ \/ s.openR # {}]}
 H_sig_e(s, e) == {[s EXCEPT !.shutOpen = @ \ {"sig"}]}
 
 H_crash(s, e) == {[s EXCEPT !.crashInj = @ \cup {e.i}]}
